@@ -7,6 +7,7 @@ import (
 	"math"
 	"strconv"
 	"strings"
+	"unsafe"
 
 	art "github.com/Clement-Jean/go-art"
 )
@@ -27,6 +28,7 @@ type TreeAPI interface {
 	ValID(v any) (uint64, bool)
 	Buf() *bufTracker
 	Buf2(lay int)
+	Freeze()
 }
 
 type SeqFn func(yield func(k []byte, id uint64, valOK bool) bool)
@@ -237,6 +239,30 @@ type drv[K any, V any] struct {
 	un  func(K) []byte
 	vo  valOps[V]
 	buf *bufTracker
+	// the key most recently handed back by the tree, kept as the K value itself:
+	// it must still convert to the same bytes when the next key arrives
+	lastK    K
+	lastConv []byte
+	haveLast bool
+	frozen   bool
+}
+
+// Freeze makes the driver stateless: required before several goroutines use it.
+func (d *drv[K, V]) Freeze() { d.frozen = true }
+
+// keyOut converts a key returned by the tree and checks that the previously
+// returned key has not changed under the caller's feet in the meantime.
+func (d *drv[K, V]) keyOut(k K) ([]byte, bool) {
+	if d.frozen {
+		return d.un(k), true // shared between goroutines (C16): the driver keeps no state
+	}
+	ok := true
+	if d.haveLast && !bytes.Equal(d.un(d.lastK), d.lastConv) {
+		ok = false
+	}
+	c := d.un(k)
+	d.lastK, d.lastConv, d.haveLast = k, c, true
+	return c, ok
 }
 
 func (d *drv[K, V]) Buf() *bufTracker { return d.buf }
@@ -266,7 +292,8 @@ func (d *drv[K, V]) Min() ([]byte, uint64, bool, bool) {
 		return nil, 0, false, true
 	}
 	id, good := d.vo.id(v)
-	return d.un(k), id, true, good
+	kb, kok := d.keyOut(k)
+	return kb, id, true, good && kok
 }
 
 func (d *drv[K, V]) Max() ([]byte, uint64, bool, bool) {
@@ -275,7 +302,8 @@ func (d *drv[K, V]) Max() ([]byte, uint64, bool, bool) {
 		return nil, 0, false, true
 	}
 	id, good := d.vo.id(v)
-	return d.un(k), id, true, good
+	kb, kok := d.keyOut(k)
+	return kb, id, true, good && kok
 }
 
 func (d *drv[K, V]) Seq(op string, a, b []byte, n uint) SeqFn {
@@ -308,7 +336,8 @@ func (d *drv[K, V]) Seq(op string, a, b []byte, n uint) SeqFn {
 	return func(yield func([]byte, uint64, bool) bool) {
 		s(func(k K, v V) bool {
 			id, good := d.vo.id(v)
-			return yield(d.un(k), id, good)
+			kb, kok := d.keyOut(k)
+			return yield(kb, id, good && kok)
 		})
 	}
 }
@@ -431,6 +460,7 @@ type tupCodec struct {
 	schema []string
 	bits32 bool
 	own    bool // own encodings instead of the library's
+	zero   bool // Restore decodes the string field without copying (it aliases the bytes it was given)
 	spare  bool     // return slices with sentinel-filled spare capacity
 	issued [][]byte // every slice handed to the tree (full capacity), when spare
 	snaps  [][]byte
@@ -632,7 +662,11 @@ func (c *tupCodec) Restore(b []byte) tup {
 				k.S = string(sb)
 				break
 			}
-			k.S = string(b[off : len(b)-1])
+			if c.zero && len(b)-1 > off {
+				k.S = unsafe.String(&b[off], len(b)-1-off) // zero-copy decoding, as a user codec may do
+			} else {
+				k.S = string(b[off : len(b)-1])
+			}
 			break
 		}
 		w := fieldBits(ft, c.bits32) / 8
@@ -685,8 +719,8 @@ func tupToCanon(schema []string, k tup) []byte {
 	return out
 }
 
-func compoundDrv[V any](kt KeyType, spare bool, own bool, vo valOps[V]) TreeAPI {
-	codec := &tupCodec{schema: kt.Schema, bits32: kt.Bits32, spare: spare, own: own}
+func compoundDrv[V any](kt KeyType, spare bool, own bool, zero bool, vo valOps[V]) TreeAPI {
+	codec := &tupCodec{schema: kt.Schema, bits32: kt.Bits32, spare: spare, own: own, zero: zero}
 	d := &drv[tup, V]{t: art.NewCompoundTree[tup, V](codec), vo: vo,
 		mk: func(b []byte) tup { return tupFromCanon(kt.Schema, b) },
 		un: func(k tup) []byte { return tupToCanon(kt.Schema, k) }}
@@ -695,7 +729,7 @@ func compoundDrv[V any](kt KeyType, spare bool, own bool, vo valOps[V]) TreeAPI 
 
 // ---- dispatch ----
 
-func withKey[V any](kt KeyType, spareCodec bool, ownCodec bool, vo valOps[V]) TreeAPI {
+func withKey[V any](kt KeyType, spareCodec bool, codec string, vo valOps[V]) TreeAPI {
 	switch kt.Kind {
 	case "alpha":
 		if kt.T == "bytes" {
@@ -743,25 +777,25 @@ func withKey[V any](kt KeyType, spareCodec bool, ownCodec bool, vo valOps[V]) Tr
 			return collRunesDrv(vo)
 		}
 	case "compound":
-		return compoundDrv(kt, spareCodec, ownCodec, vo)
+		return compoundDrv(kt, spareCodec, codec == "own", codec == "zerocopy", vo)
 	}
 	panic("withKey: bad key type " + kt.String())
 }
 
-func newTree(kt KeyType, val string, spareCodec bool, ownCodec bool) TreeAPI {
+func newTree(kt KeyType, val string, spareCodec bool, codec string) TreeAPI {
 	switch val {
 	case "", "i64":
-		return withKey(kt, spareCodec, ownCodec, vU64())
+		return withKey(kt, spareCodec, codec, vU64())
 	case "str":
-		return withKey(kt, spareCodec, ownCodec, vStr())
+		return withKey(kt, spareCodec, codec, vStr())
 	case "ptr":
-		return withKey(kt, spareCodec, ownCodec, vPtr())
+		return withKey(kt, spareCodec, codec, vPtr())
 	case "bytes":
-		return withKey(kt, spareCodec, ownCodec, vBytes())
+		return withKey(kt, spareCodec, codec, vBytes())
 	case "empty":
-		return withKey(kt, spareCodec, ownCodec, vEmpty())
+		return withKey(kt, spareCodec, codec, vEmpty())
 	case "big":
-		return withKey(kt, spareCodec, ownCodec, vBig())
+		return withKey(kt, spareCodec, codec, vBig())
 	}
 	panic("newTree: bad value type " + val)
 }
